@@ -179,16 +179,40 @@ def run(repo, rep):
         for fn in fnames:
             for n in cu.walk(cu.body(fn)):
                 if n.get("kind") == "VarDecl" and n.get("name") in names and n.get("inner"):
-                    t = cu.text(n["inner"][-1]).replace(" ", "").replace("p->use_zero_runs", "use_zero_run")
-                    out.setdefault(n["name"], set()).add(t)
+                    out.setdefault(n["name"], []).append((cu, n["inner"][-1]))
         return out
 
+    import itertools
+
+    from ..cast import CEvalError, c_eval, c_free_vars
+
     geo = ("max_symbols", "z_unary_len", "balance", "z_enable")
+    alias = {"use_zero_runs": "use_zero_run"}
+    flags = {"w_uncompressed", "use_zero_run"}
     ed = decls(enc, ["encode_slice"], geo)
     dd = decls(dec, list(dec.functions), geo)
     for nm in geo:
-        rep.check(nm in ed and nm in dd and ed[nm] == dd[nm] and len(ed[nm]) == 1, "C07-d", f"{ENC}/{DEC}", f"chunk geometry `{nm}` is the same expression in encoder and decoder ({sorted(ed.get(nm, ['?']))[0]})",
-                  f"encoder {sorted(ed.get(nm, []))}, decoder {sorted(dd.get(nm, []))}: the two sides cut the chunks differently and the interleaved fields desynchronise")
+        if len(ed.get(nm, ())) != 1 or len(dd.get(nm, ())) != 1:
+            raise AnalysisError(f"chunk geometry variable {nm}: expected one declaration per side, got {len(ed.get(nm, ()))} / {len(dd.get(nm, ()))}")
+        (ecu, en_), (dcu, dn_) = ed[nm][0], dd[nm][0]
+        ev = sorted({alias.get(v, v) for v in c_free_vars(en_)})
+        dv = sorted({alias.get(v, v) for v in c_free_vars(dn_)})
+        allv = sorted(set(ev) | set(dv))
+        diff = None
+        cnt = 0
+        try:
+            for vals in itertools.product(*[(0, 1) if v in flags else range(-2, 10) for v in allv]):
+                env = dict(zip(allv, vals))
+                env.update({k: env[v] for k, v in alias.items() if v in env})
+                cnt += 1
+                a_, b_ = c_eval(en_, env), c_eval(dn_, env)
+                if a_ != b_:
+                    diff = (dict(zip(allv, vals)), a_, b_)
+                    break
+        except CEvalError as e_:
+            raise AnalysisError(f"chunk geometry `{nm}` not evaluable: {e_}")
+        rep.check(diff is None, "C07-d", f"{ENC}/{DEC}", f"chunk geometry `{nm}` has the same value in encoder and decoder for every assignment of {allv} ({cnt} points)",
+                  (f"encoder `{ecu.text(en_)}` = {diff[1]}, decoder `{dcu.text(dn_)}` = {diff[2]} at {diff[0]}" if diff else "") + ": the two sides cut the chunks differently and the interleaved fields desynchronise")
     rep.floor("C07-d", 20)
 
     # ---------------------------------------------------------------- e
